@@ -335,3 +335,25 @@ def w_codec(ctx, type_paths, pairs, rule="CODEC"):
             got = (fn_name(r[0]) if r else None, fn_name(w[0]) if w else None)
             ctx.ob(rule, f"{it['name']}.{f['name']}", got in pairs, f"{it['name']}.{f['name']} is read through {r[0] if r else None} and written through {w[0] if w else None}; reference converter pairs: {sorted(pairs)}", it["file"], f["line"], sample=(f["name"] == "comment"))
     return n
+
+
+def w_order(ctx, path, ref_fields, count_of=None, rule="ORDER"):
+    """Read order of a variable-length record that W1 cannot lay out (its lengths depend on counts / arguments): the
+    declaration order of the binrw fields - which is the order they are read in - equals the reference list, and every
+    counted list names its own count field."""
+    wm = model(ctx)
+    it = wm.items.by_path.get(path)
+    if it is None or it["kind"] != "struct":
+        ctx.fail_closed(rule, f"struct {path} not found")
+        return 0
+    got = [f["name"] for f in it["fields"]]
+    name = path.split("::")[-1]
+    ctx.ob(rule, f"{name}|field-order", got == ref_fields, f"{name} reads its fields in the order {got}" + ("" if got == ref_fields else f"; reference order {ref_fields}"), it["file"], it["line"], sample=True)
+    for f in it["fields"]:
+        want = (count_of or {}).get(f["name"])
+        if not want:
+            continue
+        txt = " ".join((f"count = {d.text}" if d.name == "count" else d.text) for d in W.directives(f["attrs"]) if d.name in ("count", "args"))
+        m = re.search(r"count\s*[:=]\s*([A-Za-z_][A-Za-z0-9_]*)", txt)
+        ctx.ob(rule, f"{name}.{f['name']}|count", bool(m) and m.group(1) == want, f"{name}.{f['name']} is read for `{m.group(1) if m else None}` elements; its own count field is `{want}`", it["file"], f["line"])
+    return len(got)
